@@ -70,7 +70,7 @@ class RemoteLogHandler(mlzlog.Handler):
         for conn, lev in subscriptions.items():
             if record.levelno >= lev:
                 self.send_log(  # pylint: disable=not-callable
-                    conn, modname, LEVEL_NAMES[record.levelno],
+                    conn, modname, LEVEL_NAMES.get(record.levelno, record.levelname.lower()),
                     record.getMessage())
 
     def set_conn_level(self, modname, conn, level):
